@@ -5,14 +5,16 @@
 (* pre-existing file at one target.                                                                   *)
 EXTENDS DedupeOps
 
-CONSTANTS MaxFaults, Collision   \* Collision: BOOLEAN - a file already exists at the move target of b
+CONSTANTS MaxFaults, Collision,  \* Collision: BOOLEAN - a file already exists at the move target of b
+          SameIno,               \* BOOLEAN - c is a hard link of the retained a (a group reported with --match-links)
+          TruncOnOpen            \* BOOLEAN - FALSE: the code; TRUE: the deviation ClOpenTrunc (must be refuted)
 
 VARIABLE nfaults
 mcvars == <<vars, nfaults>>
 
 F(i, c) == [k |-> "file", ino |-> i, c |-> c]
 Base == [p \in {"a", "b", "c", "o", "T"} |->
-           CASE p = "a" -> F(1, "X") [] p = "b" -> F(2, "X") [] p = "c" -> F(3, "X") [] p = "o" -> F(4, "Z") [] p = "T" -> [k |-> "dir"]]
+           CASE p = "a" -> F(1, "X") [] p = "b" -> F(2, "X") [] p = "c" -> F(IF SameIno THEN 1 ELSE 3, "X") [] p = "o" -> F(4, "Z") [] p = "T" -> [k |-> "dir"]]
 Fs0 == IF Collision /\ Op = "move" THEN Put(Base, "T/b", F(5, "Y")) ELSE Base
 
 Init == /\ fs = Fs0 /\ fs0 = Fs0 /\ dropped = {"b", "c"}
@@ -41,7 +43,7 @@ StepOf(f) ==
     \/ Outcome(LAMBDA ok : BkCreate(f, Tmp(f), ok))
     \/ Outcome(LAMBDA ok : BkClone(f, ok))
     \/ Outcome(LAMBDA ok : BkCleanup(f, ok))
-    \/ Outcome(LAMBDA ok : ClOpen(f, ok))
+    \/ Outcome(LAMBDA ok : IF TruncOnOpen THEN ClOpenTrunc(f, ok) ELSE ClOpen(f, ok))
     \/ Outcome(LAMBDA ok : ClClone(f, ok))
     \/ Outcome(LAMBDA ok : ClRmTmp(f, ok))
     \/ Outcome(LAMBDA ok : Times(f, ok))
@@ -64,7 +66,9 @@ AllDone == \A f \in dropped : pc[f] = "done"
 \* the number of files reported as processed is the number of commands that succeeded
 Count == Cardinality({f \in dropped : res[f] = "ok"})
 \* without faults, crashes and locks every command succeeds
-HappyPath == (AllDone /\ nfaults = 0 /\ ~crashed /\ (locked = {} \/ NoLock) /\ ~(Collision /\ Op = "move")) => Count = 2
+\* (a file cannot be cloned onto itself: with SameIno the `dedupe` of c fails, is rolled back and is not counted)
+HappyPath == (AllDone /\ nfaults = 0 /\ ~crashed /\ (locked = {} \/ NoLock) /\ ~(Collision /\ Op = "move")) =>
+                 Count = (IF SameIno /\ Op = "reflink" THEN 1 ELSE 2)
 \* with a collision the colliding source is left in place
 CollisionKept == (Collision /\ Op = "move" /\ AllDone) => (res["b"] = "err" /\ Untouched("b"))
 =============================================================================
